@@ -94,6 +94,26 @@ Theorem reports_is_report_of_prefixes : forall hw b ns n,
 Proof. exact reports_snoc. Qed.
 Print Assumptions reports_is_report_of_prefixes.
 
+(* ---- uses of the tasking system (parallel_for, schedule, async) before and between initialisations ----
+   "scheduler lazily started" (internal backend) is separate state from "handle present"; numTaskingThreads() is decided by
+   the handle.  In EVERY state reachable without an initTaskingSystem, whatever uses happened, it reports 0 ... *)
+Theorem threads_zero_without_init_whatever_uses : forall hw b ops, inits_of ops = [] -> report b hw (run_ops b hw ops) = 0.
+Proof. intros hw b ops. apply zero_without_init. Qed.
+Print Assumptions threads_zero_without_init_whatever_uses.
+(* ... and in general uses never change what is reported: a history with uses reports what the history of its inits reports
+   (so every theorem above holds with uses interleaved anywhere) *)
+Theorem threads_uses_are_transparent : forall hw b ops,
+  report b hw (run_ops b hw ops) = report b hw (run b hw (inits_of ops)).
+Proof. intros hw b ops. apply report_ops_is_report_of_inits. Qed.
+Print Assumptions threads_uses_are_transparent.
+Theorem reports_ops_is_report_of_prefixes : forall hw b ops o,
+  reports_ops b hw (ops ++ [o]) = reports_ops b hw ops ++ [report b hw (run_ops b hw (ops ++ [o]))].
+Proof. intros hw b ops o. apply reports_ops_from_snoc. Qed.
+Print Assumptions reports_ops_is_report_of_prefixes.
+Example ex_lazy_internal : reports_ops Internal 16 [OUse; OUse; OInit 3; OUse; OInit 0] = [0; 0; 0; 3; 3; 16]
+                        /\ w_ts (run_ops Internal 16 [OUse]) = Some 16 /\ w_handle (run_ops Internal 16 [OUse]) = None.
+Proof. repeat split. Qed.
+
 (* non-vacuity *)
 Example ex_tbb : reports TBB 16 [4; 2; 0; 3] = [0; 4; 2; 16; 3].
 Proof. reflexivity. Qed.
